@@ -100,7 +100,7 @@ fn arg_classes(pre: &Tree, root: &str, op: &Op) -> String {
 }
 
 /// materialise the observed Memfs tree on disk with std::fs only
-fn materialise(pre: &Tree, root: &str) -> Result<(), String> {
+pub fn materialise(pre: &Tree, root: &str) -> Result<(), String> {
     std::fs::create_dir_all(root).map_err(|e| e.to_string())?;
     for (k, n) in &pre.nodes {
         if !is_under(k, root) || k == root {
